@@ -60,6 +60,7 @@ type Term struct {
 	Op   string // operator or atom text
 	Args []*Term
 	Sort Sort
+	Def  *Term     // named abbreviation: the term it stands for (for simplification only)
 	Vars []*Term   // quantifiers: bound variables
 	Pats [][]*Term // quantifiers: patterns
 	str  string
@@ -294,6 +295,12 @@ func Select(arr, idx *Term) *Term {
 	}
 	// select over store with syntactically equal / literal-distinct index
 	cur := arr
+	if cur.Def != nil {
+		// look through a named abbreviation; keep the name if nothing simplifies
+		if r := selectThrough(cur.Def, idx); r != nil {
+			return r
+		}
+	}
 	for cur.Op == "store" && len(cur.Args) == 3 {
 		si := cur.Args[1]
 		if si.String() == idx.String() {
@@ -309,6 +316,29 @@ func Select(arr, idx *Term) *Term {
 		return cur.Args[0]
 	}
 	return App("select", es, cur, idx)
+}
+
+// selectThrough resolves a select against a store chain only when it ends in a
+// definite hit (equal index) after skipping literal-distinct indices.
+func selectThrough(arr, idx *Term) *Term {
+	cur := arr
+	for {
+		if cur.Def != nil {
+			cur = cur.Def
+			continue
+		}
+		if cur.Op == "store" && len(cur.Args) == 3 {
+			si := cur.Args[1]
+			if si.String() == idx.String() {
+				return cur.Args[2]
+			}
+			if si.isLit && idx.isLit && si.lit.Cmp(idx.lit) != 0 {
+				cur = cur.Args[0]
+				continue
+			}
+		}
+		return nil
+	}
 }
 
 func Store(arr, idx, v *Term) *Term {
